@@ -319,6 +319,19 @@ def tagged_pos_fn(p: Annotated[Any, _tags.TagA], /, q: Annotated[Any, _tags.TagB
   return _r.rec('tagged_pos_fn', locals())
 
 
+def make_tagged_block(tag):
+  """Distinct functions with ONE module and qualname (factory / decorator / notebook-cell
+  pattern) whose parameter annotations carry different tags."""
+
+  def block(size: Annotated[Any, tag] = 1, name='block', other: Annotated[Any, _tags.TagC] = None):
+    return _r.rec('block', locals())
+
+  return block
+
+
+TAGGED_BLOCKS = [make_tagged_block(t) for t in (_tags.TagA, _tags.TagB, _tags.TagA2)]
+
+
 def two(x=None, y=None):
   return _r.rec('two', locals())
 
